@@ -6,13 +6,21 @@
     for doubles with rounding, for EVERY objective [f], every start, step size and tolerance.
     [le x y] is "not (y < x)".
 
+    "For unimodal one-dimensional objectives ... the returned point lies within the distance implied by the requested
+    tolerance from the true minimiser, from any starting point and scale": theorems over the reals at the end of this file
+    (C11_find_minimum_converges_unimodal, C11_find_maximum_converges_unimodal: every strictly unimodal objective, every pair
+    of distinct starting abscissae, every tolerance >= 0; the distance is 2*(tol*|x_min| + 2^-52)); they are about the
+    real-number instance of the model (no rounding), for runs that return.
+    Nelder-Mead: every call terminates (returns, or stops at NMAX), nfunc counts the evaluations, and a returned simplex
+    has fractional range below ftol - all for the abstract number type.
+
     NOT theorems (decided on the implementation by checks/C11.py on the quantifier's objective classes):
-    "For unimodal one-dimensional objectives and strictly convex quadratic bowls in up to six dimensions
-    the returned point lies within the distance implied by the requested tolerance from the true
-    minimiser" - Nelder-Mead has no convergence theorem and Brent's is a real-analysis result for exactly
-    unimodal objectives; also termination (the bracketing loop has no cap; ITMAX/NMAX exits are [Exit]). *)
+    "strictly convex quadratic bowls in up to six dimensions: the returned point lies within the distance implied by the
+    requested tolerance from the true minimiser" - Nelder-Mead has no convergence theorem; the 1-D distance bound WITH
+    rounding (the real-number theorem does not cover objectives that are flat in doubles near the minimiser); termination of
+    the bracketing loop (no cap in the source; Brent's ITMAX exit is [Exit]). *)
 From Coq Require Import ZArith List Reals.
-From LP Require Import Num NumR OrdLaws C11_Model C11_Proofs C11_Proofs_Hist.
+From LP Require Import Num NumR OrdLaws C11_Model C11_Proofs C11_Proofs_Hist C11_Proofs_NM C11_Proofs_Conv.
 Import ListNotations.
 
 Section Abstract.
@@ -96,7 +104,50 @@ Theorem C11_simplex_of_spec start deltas : length deltas = length start ->
     forall j, nth j (nth (S i) pp []) (n0 Ops) =
               if Nat.eqb j i then nadd Ops (nth j start (n0 Ops)) (nth j deltas (n0 Ops)) else nth j start (n0 Ops).
 Proof. exact (simplex_of_spec Ops start deltas). Qed.
+
+(** termination on fractional range: when minimize returns, one of the reported vertex values is the highest, and the
+    fractional range 2|y_hi - fmin| / (|y_hi| + |fmin| + 1e-10) the code computes from it is below ftol *)
+Theorem C11_minimize_returns_within_ftol (f : list T -> T) ftol pp o : minimize_general Ops f ftol pp = Ok o ->
+  exists hi, (hi < length pp)%nat /\ (forall k, (k < length pp)%nat -> le Ops (nth0 Ops (o_y o) k) (nth0 Ops (o_y o) hi)) /\
+             lt Ops (nm_rtol Ops (nth0 Ops (o_y o) hi) (o_fmin o)) ftol.
+Proof. exact (minimize_general_range Ops OL f ftol pp o). Qed.
+
+(** "nfunc ... evaluation counter": on a simplex of ndim + 1 vertices the objective has been evaluated exactly mpts + nfunc times
+    when the call returns (the trace lists every evaluation), and 0 <= nfunc <= NMAX + 1 + ndim *)
+Theorem C11_minimize_nfunc_counts_evaluations (f : list T -> T) ftol pp o :
+  length pp = S (length (nth 0 pp [])) -> minimize_general Ops f ftol pp = Ok o ->
+  Z.of_nat (length (o_tr o)) = (Z.of_nat (length pp) + o_nfunc o)%Z /\
+  (0 <= o_nfunc o <= nm_NMAX + 1 + Z.of_nat (length (nth 0 pp [])))%Z.
+Proof. exact (minimize_general_count Ops OL f ftol pp o). Qed.
+
+(** ... which is always the case for the two convenience overloads *)
+Theorem C11_minimize_deltas_nfunc_counts_evaluations (f : list T -> T) ftol start deltas o :
+  minimize_deltas Ops f ftol start deltas = Ok o ->
+  Z.of_nat (length (o_tr o)) = (Z.of_nat (S (length start)) + o_nfunc o)%Z /\
+  (0 <= o_nfunc o <= nm_NMAX + 1 + Z.of_nat (length start))%Z.
+Proof. exact (minimize_deltas_count Ops OL f ftol start deltas o). Qed.
 End Abstract.
+
+(** one pass of the Nelder-Mead loop, no hypothesis at all (any objective, NaN values included): the loop continues only
+    while nfunc < NMAX, and then nfunc grows by at least 1 and at most 2 + ndim *)
+Theorem C11_nm_iter_nfunc {T : Type} (Ops : NumOps T) (f : list T -> T) ftol ndim s :
+  match nm_iter Ops f ftol ndim s with
+  | NNext s' => (nm_nfunc s < nm_NMAX /\ nm_nfunc s + 1 <= nm_nfunc s' <= nm_nfunc s + 2 + Z.of_nat ndim)%Z
+  | NDone o => o_nfunc o = nm_nfunc s /\ length (o_tr o) = length (nm_tr s)
+  | NExit => (nm_NMAX <= nm_nfunc s)%Z
+  end.
+Proof. exact (nm_iter_nfunc Ops f ftol ndim s). Qed.
+
+(** hence every call of every overload terminates: it returns, stops with "NMAX exceeded" / the dimension guard, or reads out
+    of bounds on a malformed simplex - the model's fuel NMAX + 2 is never exhausted (any objective, NaN values included) *)
+Theorem C11_minimize_terminates {T : Type} (Ops : NumOps T) ftol (c : nmcall) : fresh_call Ops ftol c <> Fuel.
+Proof. exact (fresh_call_terminates Ops ftol c). Qed.
+Print Assumptions C11_minimize_returns_within_ftol.
+Print Assumptions C11_minimize_nfunc_counts_evaluations.
+Print Assumptions C11_minimize_deltas_nfunc_counts_evaluations.
+Print Assumptions C11_nm_iter_nfunc.
+Print Assumptions C11_minimize_terminates.
+
 
 (** call history: "Minimization::minimize (all three overloads) return ..." holds for every call on an object, not only the
     first: the answer (returned point, fmin, y, simplex, nfunc and the points evaluated) of a call on an object in ANY state
@@ -182,3 +233,35 @@ Theorem C11_find_maximum_not_worse (f : R -> R) xl xr tol xm tr : find_maximum R
   f xl <= f xm /\ f xr <= f xm.
 Proof. exact (find_maximum_not_worse f xl xr tol xm tr). Qed.
 Print Assumptions C11_find_maximum_not_worse.
+
+(** "For unimodal one-dimensional objectives ... the returned point lies within the distance implied by the requested tolerance
+    from the true minimiser, from any starting point and scale" - over the reals.
+    [SUnimodal f xs]: f falls strictly on (-inf, xs] and rises strictly on [xs, +inf).
+    - Bracket (any two distinct abscissae): bx ends strictly between ax and cx, and the minimiser lies between ax and cx;
+    - Brent, one pass: the bracket [a,b] keeps containing the current point x and the minimiser (the trial point of the
+      parabolic / golden / minimal step lies in [a,b] and differs from x), and a pass that returns has |x - xs| <= 2*tol1;
+    - Find_Minimum: |x_min - xs| <= 2*(tol*|x_min| + 2^-52) whenever it returns; Find_Maximum likewise for strictly
+      unimodal humps.  Termination is not claimed (Bracket has no cap; Brent's ITMAX exit is [Exit]). *)
+Theorem C11_bracket_encloses_minimiser (f : R -> R) xs a b s tr : SUnimodal f xs -> a <> b -> bracket ROps f a b = Ok (s, tr) ->
+  (b_ax s < b_bx s < b_cx s \/ b_cx s < b_bx s < b_ax s) /\ Rmin (b_ax s) (b_cx s) <= xs <= Rmax (b_ax s) (b_cx s).
+Proof. exact (fun HU => bracket_encloses f xs HU a b s tr). Qed.
+
+Theorem C11_brent_step_keeps_minimiser (f : R -> R) xs tol s : SUnimodal f xs -> 0 <= tol ->
+  s_a s <= s_x s <= s_b s /\ s_a s <= xs <= s_b s /\ s_fx s = f (s_x s) ->
+  match brent_step ROps f tol s with
+  | BDone xm fm => xm = s_x s /\ Rabs (xm - xs) <= 2 * (tol * Rabs xm + 1 / 4503599627370496)
+  | BNext s' u => s_a s' <= s_x s' <= s_b s' /\ s_a s' <= xs <= s_b s' /\ s_fx s' = f (s_x s')
+  end.
+Proof. exact (fun HU => brent_step_bi f xs HU tol s). Qed.
+
+Theorem C11_find_minimum_converges_unimodal (f : R -> R) xs xl xr tol xm tr : SUnimodal f xs -> xl <> xr -> 0 <= tol ->
+  find_minimum ROps f xl xr tol = Ok (xm, tr) -> Rabs (xm - xs) <= 2 * (tol * Rabs xm + 1 / 4503599627370496).
+Proof. exact (fun HU => find_minimum_converges f xs HU xl xr tol xm tr). Qed.
+
+Theorem C11_find_maximum_converges_unimodal (f : R -> R) xs xl xr tol xm tr : SUnimodalMax f xs -> xl <> xr -> 0 <= tol ->
+  find_maximum ROps f xl xr tol = Ok (xm, tr) -> Rabs (xm - xs) <= 2 * (tol * Rabs xm + 1 / 4503599627370496).
+Proof. exact (find_maximum_converges f xs xl xr tol xm tr). Qed.
+Print Assumptions C11_bracket_encloses_minimiser.
+Print Assumptions C11_brent_step_keeps_minimiser.
+Print Assumptions C11_find_minimum_converges_unimodal.
+Print Assumptions C11_find_maximum_converges_unimodal.
